@@ -90,7 +90,9 @@ CLAIMED = {
          "(FDEq.state_unify_C: the domain of each newly bound variable is intersected into the term it was bound to). For whole programs "
          "without recursion and before labeling (domains, all constraints, ==, !=, interleaving conjunction/disjunction, fresh): every "
          "solution of the reading solves an answer state that is delivered after finitely many steps unless an engine step errs first "
-         "(Complete0.complete0_delivered). Not proved: the lift through labeling (onceo) and recursion, and uniqueness; completeness and uniqueness over whole programs are decided "
+         "(Complete0.complete0_delivered), and labeling loses none either: force_ans(q) started in a state th solves delivers a state th "
+         "still solves, through lists and compound terms (ForceC.force_delivered, flat_then_label). Not proved: the labeling of hidden "
+         "variables under onceo, recursion, and uniqueness (each solution exactly once); completeness and uniqueness over whole programs are decided "
          "against brute force (query variables, lists, compounds, hidden variables).",
          "6/C17", "Coq proof that no state operation loses a solution (all constraint kinds, any operands) + brute-force projection oracle + differential correspondence",
          "The whole-program lift of completeness (search fairness, labeling order, uniqueness) is not mechanised."),
